@@ -416,6 +416,7 @@ def run_token(inp):
             else:
                 await fe.app._receive(R.LP, R.lp_wire(iw, [(R.LP_PIT_TOKEN, tok)]))
         await case.settle()
+        t_arrival = clock.now_ms
         by_name = {c.name_bytes(): c for c in fe.log}
         if len(fe.log) != len(tokens) or len(by_name) != len(tokens):
             viol('token-setup', 'handler invoked %d times for %d Interests' % (len(fe.log), len(tokens)))
@@ -435,9 +436,22 @@ def run_token(inp):
                 data = R.data_wire(comps[i] + [R.comp('v%d' % k)], bytes([0x41 + k]) * max(0, n - 60))
             arg = [data, bytearray(data), memoryview(data)][inp.get('kind', 0)]
             n0 = len(fe.face.sent)
+            late = inp.get('late_from') is not None and k >= inp['late_from']
+            if late and clock.now_ms < t_arrival + 4000:
+                clock.now_ms = t_arrival + 4000 + 1000          # the producer answers after the Interests' lifetime ran out
             ret = by_name[tuple(comps[i])].reply(arg)
             sent = fe.face.sent[n0:]
-            desc = 'tokens=%s order=%s reply#%d (to Interest %d, %d bytes)' % (inp['tokens'], order, k, i, len(data))
+            desc = 'tokens=%s order=%s reply#%d (to Interest %d, %d bytes)' % (
+                [t if t is None or len(t) <= 20 else '%s..(%d octets)' % (t[:8], len(t) // 2) for t in inp['tokens']], order, k, i, len(data))
+            if late:
+                # nothing is owed to an Interest whose lifetime ran out - and whatever is sent to one that came with a token has
+                # to carry the token (a bare packet in its place is not "the reply in an envelope with that token")
+                if sent and (tokens[i] is not None and (len(sent) != 1 or check_envelope(sent[0], tokens[i], data))):
+                    viol('late-reply-sent-without-its-token', desc + ': after the lifetime the face got %s.. (%d bytes) for an Interest '
+                         'that came with token %s' % (sent[0][:12].hex(), len(sent[0]), tokens[i].hex()[:16]))
+                if bool(ret) != bool(sent):
+                    viol('reply-return', desc + ': late reply: %d packet(s) sent, returned %r' % (len(sent), ret))
+                continue
             if len(sent) != 1:
                 viol('reply-send-count', desc + ': %d send() calls' % len(sent))
                 continue
@@ -453,8 +467,9 @@ def run_token(inp):
                     viol('pit-token-reply-envelope', desc + ': ' + why)
 
     case = R.CaseLoop()
+    clock = R.FakeClock()
     try:
-        with R.FakeClock():
+        with clock:
             case.run(main)
     except Exception as e:
         viol('token-exception:%s' % R.exc_name(e), '%s (%s) at %s' % (R.exc_name(e), e, R.where(e)))
@@ -544,6 +559,15 @@ def gen_cases(tier, seed):
             for n, raw in ((7, True), (252, True), (253, True), (300, False), (70000, False), (65536, True), (0, True)):
                 cases.append(('token', {'tokens': list(toks), 'order': order, 'data_len': n, 'kind': (n + len(order)) % 3,
                                         'raw': raw}))
+    # tokens whose Length needs the 3-octet form (the library sets no upper limit on the token)
+    for n in (252, 253, 254, 300, 1000):
+        long_tok = ''.join('%02x' % ((j * 7 + n) & 0xff) for j in range(n))
+        for order in ([0, 1, 2], [2, 0, 1, 0]):
+            cases.append(('token', {'tokens': [long_tok, None, '0102'], 'order': order, 'data_len': 90, 'kind': n % 3, 'raw': False}))
+    # replies given after the lifetime of the Interests ran out (some in time first, then late ones)
+    for toks in itertools.permutations(TOKENS, 3) if tier == 'thorough' else list(itertools.permutations(TOKENS, 3))[::5]:
+        for order, late_from in (([0, 1, 2], 0), ([0, 1, 2, 0, 1, 2], 3), ([2, 1, 0, 0], 1)):
+            cases.append(('token', {'tokens': list(toks), 'order': order, 'data_len': 80, 'kind': 0, 'raw': False, 'late_from': late_from}))
     return cases
 
 
